@@ -474,6 +474,19 @@ pub fn main_for(pid: &str) {
                         out.fail(&format!("c{}b", k), "parse-panic", &format!("parse_bytes({:?}) panicked", bytes));
                     }
                 }
+                // bytes that are not legal in the (declared or default) encoding are a fatal error, not U+FFFD (which is a name
+                // character): an otherwise well-formed UTF-8 document with one illegal byte in a name, in text, in an attribute value
+                for (label, bad) in [("text", &b"<a>\xff</a>"[..]), ("name", &b"<a\xfe/>"[..]), ("truncated sequence", &b"<a>\xc3</a>"[..]), ("attribute value", &b"<a k='\xff'/>"[..]),
+                                     ("declared UTF-8", &b"<?xml version=\"1.0\" encoding=\"UTF-8\"?><a>\xe9</a>"[..]), ("overlong", &b"<a>\xc0\xaf</a>"[..]), ("lone surrogate", &b"<a>\xed\xa0\x80</a>"[..])] {
+                    let mut x = Xot::new();
+                    stats.bump("class.bytes_illegal_in_encoding");
+                    match guard(|| x.parse_bytes(bad)) {
+                        Ok(Ok(_)) => out.fail(&format!("c{}b", k), "bytes-illegal-in-encoding-accepted", &format!("parse_bytes accepts {:?} ({})", bad, label)),
+                        Ok(Err(_)) => {}
+                        Err(()) => out.fail(&format!("c{}b", k), "parse-panic", &format!("parse_bytes({:?}) panicked", bad)),
+                    }
+                    if k > 0 { break; }   // the seven fixed inputs once per run is enough
+                }
             }
         }
     }
